@@ -5,7 +5,10 @@ import (
 	"os"
 	"os/exec"
 	"path/filepath"
+	"strconv"
+	"strings"
 	"sync"
+	"time"
 )
 
 var (
@@ -44,5 +47,52 @@ func removeBinaries() {
 	defer binMu.Unlock()
 	if binDir != "" {
 		_ = os.RemoveAll(binDir)
+	}
+}
+
+// RunProgram starts cmd and waits for it. A child that is asleep (process state S) and has not
+// consumed any CPU time for 30 consecutive seconds is taken to be stuck, is killed, and stuck=true
+// is returned. Being slow does not count: a process that is waiting for a CPU on a loaded machine
+// is runnable (state R), and one that computes consumes CPU time.
+func RunProgram(cmd *exec.Cmd) (err error, stuck bool) {
+	if err := cmd.Start(); err != nil {
+		return err, false
+	}
+	done := make(chan error, 1)
+	go func() { done <- cmd.Wait() }()
+	stat := fmt.Sprintf("/proc/%d/stat", cmd.Process.Pid)
+	lastCPU, idle := int64(-1), 0
+	tick := time.NewTicker(250 * time.Millisecond)
+	defer tick.Stop()
+	for {
+		select {
+		case err := <-done:
+			return err, false
+		case <-tick.C:
+			b, rerr := os.ReadFile(stat)
+			if rerr != nil {
+				continue
+			}
+			// pid (comm) state ppid ... utime stime
+			s := string(b)
+			if i := strings.LastIndexByte(s, ')'); i >= 0 {
+				f := strings.Fields(s[i+1:])
+				if len(f) > 13 {
+					ut, _ := strconv.ParseInt(f[11], 10, 64)
+					st, _ := strconv.ParseInt(f[12], 10, 64)
+					if f[0] == "S" && ut+st == lastCPU {
+						idle++
+					} else {
+						idle = 0
+					}
+					lastCPU = ut + st
+				}
+			}
+			if idle >= 120 {
+				_ = cmd.Process.Kill()
+				<-done
+				return fmt.Errorf("killed: asleep without consuming CPU time for 30 s"), true
+			}
+		}
 	}
 }
